@@ -9,6 +9,7 @@ CONSTANTS
   QMax = 5
   Win = 5
   Timelies = {1}
+  Fifos = {1}
 INVARIANT NoCrash
 INVARIANT MarkIsTrue
 INVARIANT TimersAreOutstanding
